@@ -431,7 +431,26 @@ class TimeFacade:
         return self.k.now
 
     def sleep(self, d):
-        self.k.now += d
+        k = self.k
+        k.now += d
+        if threading.get_ident() != k.loop_thread:
+            return
+        # the loop itself sleeps instead of polling or waiting for a handler: an iteration like any other (budget, invariants);
+        # the environment moves on meanwhile
+        with k.cond:
+            k.tick()
+            k.sleeps = getattr(k, "sleeps", 0) + 1
+            step = k.next_step()
+            while step is not None and step[0] != "time":
+                k.apply_step(step)
+                step = k.next_step()
+            k.check_invariants("wait")
+            late = [c.cid for c in k.conns.values() if c.closed_at is None and c.idle_since is not None and c.running is None
+                    and k.now - (c.idle_since + k.keepalive) > 3.5]
+            if late and k.worker is not None and k.worker.alive:
+                k.violate("keepalive-not-reaped/loop-sleeping", "idle keep-alive connections %s are still open %.1f s after their deadline; "
+                          "the loop sleeps without polling or reaping" % (late, max(k.now - (k.conns[c].idle_since + k.keepalive) for c in late)))
+                raise Budget("sleep")
 
 
 REQ_KA = b"GET /ka HTTP/1.1\r\nHost: h\r\n\r\n"
